@@ -1,18 +1,19 @@
 /-
   Proofs/GapInner.lean — a step inside an element node of the kept gap of a replace-around step (C17,
   `commute_succeeds_around_gap`): nested levels found from token windows (`lvl_of_window`), a closed node list cut
-  again where its tokens stand (`slice_window`), the right-hand side behind an exchanged level (`rightRel_after_lvl`),
+  again where its tokens stand (`sliceKids_window`), the right-hand side behind an exchanged level (`rightRel_after_lvl`),
   the guard's decomposition (`insideGap_decomp`), `Slice.insertAt` with the content of an inner node exchanged.
 -/
 import Proofs.CommuteAroundAgain
 import Proofs.TypePlan
 import Proofs.MergeRel
 import Proofs.CommuteSuccess
+import Proofs.ShallowKeys
 namespace PM
 open PM
 
 /-- **a closed list of nodes is cut again where its tokens stand** (generalises `slice_again`) -/
-theorem slice_window (K' G : List Node) (p' : Nat) (hn' : fnorm K' = true) (hG : fnorm G = true)
+theorem sliceKids_window (K' G : List Node) (p' : Nat) (hn' : fnorm K' = true) (hG : fnorm G = true)
     (hq' : p' + fsize G ≤ fsize K')
     (hwin : ((ftoks K').drop p').take (fsize G) = ftoks G)
     (hal : 0 < fsize G → alignedAt K' p' = true ∧ alignedAt K' (p' + fsize G) = true) :
@@ -256,7 +257,9 @@ theorem insideGap_decomp : ∀ (rest : List Node) (ty : TypeId) (level pre : Lis
             Lvl.down ty pre aC mC ns hpre hL, by omega, by omega, r1, r2, by omega, by omega, by omega⟩
       · rw [if_neg hc1] at h; simp at h
 
-/-! ### `Slice.insertAt` reads the inserted fragment's top-level types and marks only -/
+/-! ### `Slice.insertAt` reads the inserted fragment's top-level types, marks and text-ness only
+  (`Schema.skeys`, Proofs/ShallowKeys.lean: `insert_into` validates the content it built, in which adjacent text nodes
+  with equal marks are joined) -/
 
 theorem canReplace_ins_congr (S : Schema) (p : TypeId) (level : List Node) (i j : Nat) (ins ins' : List Node)
     (hty : S.types ins = S.types ins') (hmk : ins.map Node.marks = ins'.map Node.marks) :
@@ -275,41 +278,7 @@ theorem canReplace_ins_congr (S : Schema) (p : TypeId) (level : List Node) (i j 
   unfold Schema.canReplace
   simp only [List.take_length, List.drop_zero, hty, hall]
 
-theorem flatInsert_success_congr (S : Schema) (ins ins' : List Node)
-    (hty : S.types ins = S.types ins') (hmk : ins.map Node.marks = ins'.map Node.marks)
-    (parent : Option TypeId) (level : List Node) (d idx : Nat) (c : List Node)
-    (h : flatInsert S ins parent level d idx = .ok (some c)) :
-    ∃ c', flatInsert S ins' parent level d idx = .ok (some c') := by
-  unfold flatInsert at h ⊢
-  simp only at h ⊢
-  cases parent with
-  | none =>
-    simp only at h ⊢
-    cases h1 : fcut level 0 d with
-    | error e => simp [h1] at h
-    | ok l =>
-      cases h2 : fcut level d (fsize level) with
-      | error e => simp [h1, h2] at h
-      | ok r => exact ⟨_, rfl⟩
-  | some p =>
-    simp only at h ⊢
-    rw [← canReplace_ins_congr S p level idx idx ins ins' hty hmk]
-    cases hc : S.canReplace p level idx idx ins 0 ins.length with
-    | none => simp [hc] at h
-    | some bb =>
-      cases bb with
-      | false => simp [hc] at h
-      | true =>
-        simp only [hc] at h ⊢
-        cases h1 : fcut level 0 d with
-        | error e => simp [h1] at h
-        | ok l =>
-          cases h2 : fcut level d (fsize level) with
-          | error e => simp [h1, h2] at h
-          | ok r => exact ⟨_, rfl⟩
-
-theorem insertInto_success_congr (S : Schema) (ins ins' : List Node)
-    (hty : S.types ins = S.types ins') (hmk : ins.map Node.marks = ins'.map Node.marks) :
+theorem insertInto_success_congr (S : Schema) (ins ins' : List Node) (hk : S.skeys ins = S.skeys ins') :
     ∀ (rest : List Node) (parent : Option TypeId) (level : List Node) (d0 idx d oa ob : Nat) (c : List Node),
       insertInto S ins parent level d0 idx rest d oa ob = .ok (some c) →
       ∃ c', insertInto S ins' parent level d0 idx rest d oa ob = .ok (some c')
@@ -318,20 +287,20 @@ theorem insertInto_success_congr (S : Schema) (ins ins' : List Node)
     split at h
     · rename_i hd
       rw [if_pos hd]
-      exact flatInsert_success_congr S ins ins' hty hmk _ _ _ _ c h
+      exact flatInsert_success_congr S ins ins' hk _ _ _ _ c h
     · simp at h
   | n :: ns, parent, level, d0, idx, d, oa, ob, c, h => by
     unfold insertInto at h ⊢
     split at h
     · rename_i hd
       rw [if_pos hd]
-      exact flatInsert_success_congr S ins ins' hty hmk _ _ _ _ c h
+      exact flatInsert_success_congr S ins ins' hk _ _ _ _ c h
     · rename_i hd
       rw [if_neg hd]
       split at h
       · rename_i hle
         rw [if_pos hle]
-        exact insertInto_success_congr S ins ins' hty hmk ns parent level d0 (idx + 1) (d - n.size) oa ob c h
+        exact insertInto_success_congr S ins ins' hk ns parent level d0 (idx + 1) (d - n.size) oa ob c h
       · rename_i hle
         rw [if_neg hle]
         split at h
@@ -339,24 +308,22 @@ theorem insertInto_success_congr (S : Schema) (ins ins' : List Node)
           simp only at h ⊢
           split at h
           · rename_i inner hin
-            obtain ⟨c', hc'⟩ := insertInto_success_congr S ins ins' hty hmk kids _ kids (d - 1) 0 (d - 1) _ _ inner hin
+            obtain ⟨c', hc'⟩ := insertInto_success_congr S ins ins' hk kids _ kids (d - 1) 0 (d - 1) _ _ inner hin
             rw [hc']
             exact ⟨_, rfl⟩
           · simp at h
           · simp at h
-        · exact flatInsert_success_congr S ins ins' hty hmk _ _ _ _ c h
+        · exact flatInsert_success_congr S ins ins' hk _ _ _ _ c h
 
 theorem insertAt_success_congr (S : Schema) (sl I : Slice) (pos : Nat) (ins ins' : List Node)
-    (hty : S.types ins = S.types ins') (hmk : ins.map Node.marks = ins'.map Node.marks)
+    (hk : S.skeys ins = S.skeys ins')
     (h : sl.insertAt S pos ins = .ok (some I)) : ∃ I', sl.insertAt S pos ins' = .ok (some I') := by
-  unfold Slice.insertAt at h ⊢
-  split at h
-  · rename_i c hc
-    obtain ⟨c', hc'⟩ := insertInto_success_congr S ins ins' hty hmk _ _ _ _ _ _ _ _ c hc
-    rw [hc']
-    exact ⟨_, rfl⟩
-  · simp at h
-  · simp at h
+  obtain ⟨hle, c, hc, _⟩ := insertAt_ok h
+  obtain ⟨c', hc'⟩ := insertInto_success_congr S ins ins' hk _ _ _ _ _ _ _ _ c hc
+  rw [insertAt_of_le hle]
+  unfold Slice.insertAtIn
+  rw [hc']
+  exact ⟨_, rfl⟩
 
 /-- the top-level types and marks of a list do not depend on what a nested level holds -/
 theorem Lvl.ctx_labels {ty tyP : TypeId} {K L : List Node} {b nd : Nat} {ctx : List Node → List Node}
@@ -365,6 +332,14 @@ theorem Lvl.ctx_labels {ty tyP : TypeId} {K L : List Node} {b nd : Nat} {ctx : L
   cases h with
   | down ty pre aC mC ns hp hl =>
     simp [Schema.types, Schema.tyOf, Node.tyOr, Node.marks]
+
+/-- … nor do the keys `insert_into` reads (type, marks, text-ness) -/
+theorem Lvl.ctx_skeys {ty tyP : TypeId} {K L : List Node} {b nd : Nat} {ctx : List Node → List Node}
+    (h : Lvl ty K b (nd + 1) tyP L ctx) (S : Schema) (X Y : List Node) :
+    S.skeys (ctx X) = S.skeys (ctx Y) := by
+  cases h with
+  | down ty pre aC mC ns hp hl =>
+    simp [Schema.skeys, Schema.skey, Schema.tyOf, Node.tyOr, Node.marks, Node.isText]
 
 
 /-! ### token windows, the guard unfolded, the gap of the other document -/
@@ -481,7 +456,7 @@ theorem gap_slice_inner (K Ka : List Node) (gap : Slice) (G' : List Node) (A0 B0
     simp only [List.length_append, ftoks_length] at this
     omega
   rw [← hgt']
-  refine slice_window Ka G' gf hna hG'n (by omega) ?_ (fun _ => ⟨?_, ?_⟩)
+  refine sliceKids_window Ka G' gf hna hG'n (by omega) ?_ (fun _ => ⟨?_, ?_⟩)
   · rw [hGT, hLKa, show fsize G' = gf + fsize G' - gf by omega,
       gap_window A0 W' B0 gf _ hgf (by omega)]
     congr 2; omega
